@@ -20,7 +20,7 @@ class C01(TreeCheck):
     level = "exploration"
     rule_text = (
         "programs from g_mix (1-3 threads; plain/reusable executors; all task kinds incl. pool-breaking ones; cancel/resize/"
-        "shutdown(wait=*)/del; 6 ways of ending) run once in profile mode, then re-run with one injected delay (D) at a sampled "
+        "shutdown(wait=*)/del; 6 ways of ending; every eighth program is g_mass_cancel: 20-40 queued futures on 1-2 workers, most cancelled in one go, live work behind them) run once in profile mode, then re-run with one injected delay (D) at a sampled "
         "statement of the driver's user/manager/feeder threads, two delays in two different driver threads (DD), one injected death (K) at a sampled statement of a worker, or "
         "jitter (Z). A case is non-trivial when the planned fault fired (or, for P/Z cases, when futures were observed); "
         "distinct = distinct (program shape, mode, injection function, fault kind, outcome class)."
@@ -41,7 +41,10 @@ class C01(TreeCheck):
         out = []
         forced = ["fork", "spawn", "forkserver", "loky_init_main"]
         for i in range(self.n_bases(tier)):
-            prog, meta = programs.g_mix(rng, force_context=forced[i % 4] if (i < 4 or (tier != "quick" and i % 6 == 0)) else None)
+            if i % 8 == 5:
+                prog, meta = programs.g_mass_cancel(rng)
+            else:
+                prog, meta = programs.g_mix(rng, force_context=forced[i % 4] if (i < 4 or (tier != "quick" and i % 6 == 0)) else None)
             out.append({"program": prog, "config": {}, "meta": meta})
         return out
 
